@@ -1,5 +1,5 @@
 CONSTANTS
-  MaxDepth = 10
+  MaxDepth = 8
   Dims = {1}
   Addrs = {1, 2, 3}
   KeyHoldsRef = TRUE
